@@ -1302,6 +1302,50 @@ def problemShapeOk (P : Problem) : Bool :=
 def supported (P : Problem) (S : Solution) : Bool :=
   problemShapeOk P && S.tours.all (fun t => tourShapeOk P t && shiftAgrees P t)
 
+/-! ### the open deviations D9 / D11 as shapes of their own
+
+`tourShapeOk` excludes two shapes on which the unchanged checker is known to reject valid solver output. They are kept
+visible: `tourShapeCore` is `tourShapeOk` without those two clauses, `d9Shape` / `d11Shape` name them. The driver
+reports a spec-valid, core-supported solution that the real checker rejects as a failure of `accepts_valid` tagged
+with the deviation, so that it is listed as a known finding instead of being silently skipped. -/
+
+/-- D9: a reload that is not the first activity of its stop, or that is served at the first stop -/
+def d9Shape (t : Tour) : Bool :=
+  match t.stops with
+  | [] => false
+  | s0 :: rest => s0.acts.any (fun a => a.ty == .reload) || rest.any (fun s => (s.acts.drop 1).any (fun a => a.ty == .reload))
+
+/-- D11: the last stop is a reload stop that also serves jobs -/
+def d11Shape (t : Tour) : Bool :=
+  match t.stops with
+  | [] => false
+  | _ :: rest => (match rest.getLast? with | some s => isReloadStop s && s.acts.any (fun a => isJobTy a.ty) | none => false)
+
+def tourShapeCore (P : Problem) (t : Tour) : Bool :=
+  match t.stops with
+  | [] => false
+  | s0 :: rest =>
+    (match s0.acts.head? with | some a => a.ty == .departure | none => false) &&
+    rest.all (fun s => !s.acts.isEmpty) &&
+    countP (fun a => a.ty == .departure) (tourActs t) == 1 &&
+    (match shiftOf P t with
+     | none => false
+     | some sh =>
+       (match sh.end_ with
+        | some _ => countP (fun a => a.ty == .arrival) (tourActs t) == 1 &&
+                    (match (tourActs t).getLast? with | some a => a.ty == .arrival | none => false)
+        | none => countP (fun a => a.ty == .arrival) (tourActs t) == 0))
+
+def supportedCore (P : Problem) (S : Solution) : Bool :=
+  problemShapeOk P && S.tours.all (fun t => tourShapeCore P t && shiftAgrees P t)
+
+/-- which open deviation (if any) keeps a core-supported solution out of `supported` -/
+def deviationOf (P : Problem) (S : Solution) : Option String :=
+  if supported P S || !supportedCore P S then none
+  else if S.tours.any d9Shape then some "D9"
+  else if S.tours.any d11Shape then some "D11"
+  else none
+
 end Spec
 
 end C12
